@@ -7,6 +7,7 @@ import (
 	"strings"
 
 	"github.com/0chain/common/core/util"
+	"verifharness/vh"
 )
 
 // candidates for making an instance's encoding exceed util.MPTMaxAllowableNodeSize: maps with
@@ -110,7 +111,8 @@ func inflate(t vtype, v value) (ok bool) {
 					g = false
 				}
 			}()
-			for n := 1 << 14; n <= 1<<21; n <<= 2 {
+			prev := -1
+			for n := 1 << 12; n <= 1<<21; n <<= 1 {
 				grow(c.v, n)
 				b, err := v.MarshalMsg(nil)
 				if err != nil {
@@ -119,6 +121,10 @@ func inflate(t vtype, v value) (ok bool) {
 				if len(b) > util.MPTMaxAllowableNodeSize {
 					return true
 				}
+				if prev >= 0 && len(b)-prev < n/4 {
+					return false // this container is not part of the encoding
+				}
+				prev = len(b)
 			}
 			return false
 		}()
@@ -131,3 +137,18 @@ func inflate(t vtype, v value) (ok bool) {
 }
 
 var inflatable = map[string]bool{}
+
+// one oversized instance per type, built once (the engine never mutates it)
+var bigCache = map[string]value{}
+
+func bigInstance(t vtype) value {
+	if v, ok := bigCache[t.name]; ok {
+		return v
+	}
+	v, _ := gen(t, vh.NewRand(2))
+	if !inflate(t, v) {
+		v = nil
+	}
+	bigCache[t.name] = v
+	return v
+}
